@@ -252,10 +252,26 @@ BinLoop(t, i0, prec, minbp, lhs) ==
              IF ~r.ok THEN FAIL
              ELSE BinLoop(t, r.i, prec, minbp, [k |-> op, args |-> <<lhs, r.e>>])
 
+\* deferred parts: MAIN { " | " ["DNOT "] atom } - filters applied to what the main query returned, so all of them hold
+W_DNOT == <<68,78,79,84>>
+RECURSIVE ParseParts(_, _, _)
+ParseParts(t, i0, acc) ==
+    LET i == SkipSp(t, i0) IN
+    IF i > Len(t) THEN [ok |-> TRUE, es |-> acc]
+    ELSE IF t[i] # 124 THEN [ok |-> FALSE, es |-> <<>>]
+    ELSE LET j == SkipSp(t, i + 1)
+             neg == IsWordAt(t, j, W_DNOT)
+             a == ParseAtom(t, IF neg THEN SkipSp(t, j + 4) ELSE j)
+         IN  IF ~a.ok THEN [ok |-> FALSE, es |-> <<>>]
+             ELSE ParseParts(t, a.i, Append(acc, IF neg THEN QNot(a.e) ELSE a.e))
 \* whole query -> [ok, e]
 ParseQuery(t, prec) ==
-    LET r == ParseExpr(t, 1, prec, 0) IN
-    IF r.ok /\ SkipSp(t, r.i) = Len(t) + 1 THEN [ok |-> TRUE, e |-> r.e] ELSE [ok |-> FALSE, e |-> QTrue]
+    LET i1 == SkipSp(t, 1)
+        star == i1 <= Len(t) /\ t[i1] = 42 /\ (i1 = Len(t) \/ t[i1 + 1] = 32)      \* "*": nothing but deferred parts
+        r == IF star THEN Res(i1 + 1, QTrue) ELSE ParseExpr(t, 1, prec, 0)
+        ps == IF r.ok THEN ParseParts(t, r.i, <<>>) ELSE [ok |-> FALSE, es |-> <<>>]
+    IN  IF r.ok /\ ps.ok THEN [ok |-> TRUE, e |-> IF ps.es = <<>> THEN r.e ELSE QAnd(<<r.e>> \o ps.es)]
+        ELSE [ok |-> FALSE, e |-> QTrue]
 
 \* ---- meaning: truth tables over the atoms of two expressions ------------
 RECURSIVE QAtoms(_)
